@@ -6,6 +6,7 @@ pub mod nio;
 pub mod qconc;
 pub mod queue;
 pub mod rtwait;
+pub mod sel;
 pub mod time;
 pub mod timeouts;
 pub mod tlcache;
@@ -21,5 +22,6 @@ pub static ALL: &[Comp] = &[
     Comp { name: "co", gen: co::gen, exec: co::exec, isolate_ms: 5000 },
     Comp { name: "local", gen: local::gen, exec: local::exec, isolate_ms: 5000 },
     Comp { name: "beans", gen: beans::gen, exec: beans::exec, isolate_ms: 10000 },
+    Comp { name: "sel", gen: sel::gen, exec: sel::exec, isolate_ms: 8000 },
     Comp { name: "pq", gen: queue::gen_pq, exec: queue::exec_pq, isolate_ms: 500 },
 ];
